@@ -69,6 +69,20 @@ CHECKS["C10"] = dict(
     technique="Lean 4 theorems about a reference recognizer/tree checker + exhaustive-up-to-length differential validation of the real parser",
 )
 
+CHECKS["C20"] = dict(
+    category="proof",
+    text="String-level models of count, octal_to_decimal (three argument modes), crop, ljust/rjust(_crop), extend_crop on closed arguments. "
+    "Theorems for ALL inputs: count verdict <-> equality; octal_to_decimal(both) <-> base-8 value = base-10 value; the explicit octal loop "
+    "and Python's digit generation are value-correct in every base >= 2; proposed decimal/octal strings denote the same number; justify "
+    "verdict true <-> length = width, false <-> (no crop and too long), every replacement has exactly the requested width and is the padded / "
+    "cropped argument; crop true <-> fits. Tie: SemanticPredicate.evaluate on generated closed trees vs the model; every replacement tree "
+    "certified by the verified tree checker.",
+    design_ref="DESIGN.md section 7 C20",
+    note="Python int()/str()/oct() on digit strings modelled by positional arithmetic; parsing of replacement strings into trees is the real "
+    "Earley parser (its output is certified, not modelled). crop is read as 'fits within the width'. Closed arguments only.",
+    technique="Lean 4 theorems (verdict <-> relation, replacement satisfies relation) + differential correspondence + certified replacement trees",
+)
+
 NOT_APPLICABLE = {
     "C22": "reproducibility across fresh processes depends on hash randomisation, Z3 seeds/timeouts and wall-clock time; a functional Lean model would prove determinism vacuously and no executable model can exhibit the failure (DESIGN.md section 8)",
 }
